@@ -959,6 +959,11 @@ def c14_worker(item):
         elif r.random() < 0.5:
             goal = [] if r.random() < 0.5 else ["2"]
     threads = r.choice([1, 4])
+    if shape in ("symlinked-source", "symlinked-patch") and ws.fail_at is not None:
+        # with a failing series the parallel driver may or may not run ahead into later patches and re-save their
+        # (unchanged) files, which turns a symbolic link into a regular file: that depends on the schedule, not on
+        # the options under test, so the symlink shapes use the deterministic driver when the series fails
+        threads = 1
     backup = r.choice(["always", None, "never"])
     variant = r.choice(C14_VARIANTS)
     if r.random() < 0.3:
